@@ -335,6 +335,7 @@ PROPERTY_RULES: Dict[str, List[Scoped]] = {
 
 # eleventh batch of seeded changes
 for _pid11, _more11 in {
+    "C04": [_r("COSTKEYS")],
     "C05": [_r("MASK-RANGE")],
     "C09": [_r("GAIN-AT-LCA")],
     "C11": [_r("NO-LAZY-VALUES")],
@@ -859,6 +860,7 @@ _DECIDED_ROUND10 = {
     'C20': ['supertree / all_supertrees hand the trees they are given to the triple decomposition and return its answer, nothing else (SUPERTREE-DELEGATES); PROTOCOL-ONLY'],
 }
 _DECIDED_ROUND11 = {
+    'C04': ['every event is charged under its own cost key in the tables, so an event of infinite cost is never part of a returned solution (COSTKEYS)'],
     'C05': ['the candidate syntenies of an ancestral object are all sub-sequences of the root ordering, whoever enumerates them (MASK-RANGE)'],
     'C09': ['a family is gained at the lowest common ancestor of all the leaves that carry it, not of the first and last in listing order (GAIN-AT-LCA)'],
     'C11': ['no one-shot iterator is stored in a field, dictionary or record of the model (NO-LAZY-VALUES); no attribute of a parsed node is rewritten by the parser (FIELD-SOURCE tree-as-written)'],
